@@ -99,6 +99,11 @@ pub fn eval(ctx: &Ctx, case: &Case) {
                 }
             };
             same_priv(ctx, "Sm2PrivateKey::new", tag, skr, &d, &cj);
+            ctx.call();
+            match guard(|| sk.to_public_key()) {
+                Guard::Done(p2) if ref_point(&p2.point) == want => {}
+                other => ctx.violation("Sm2PrivateKey::to_public_key", &format!("not-[d]G/{}", tag), gdbg(&other.map(|p| ref_point(&p.point).map(|(x, _)| hexbig(&x)))), cj()),
+            }
             let pk = sk.public_key;
             // SEC1 forms
             for comp in [false, true] {
@@ -538,7 +543,7 @@ pub fn run(ctx: &Arc<Ctx>) {
     refmodels::selftest::run(&["sm3", "sm2"]).unwrap_or_else(|e| ctx.machinery_error(format!("reference self-test failed: {}", e)));
     let n = sm2::params().n.clone();
     let pr = sm2::params();
-    ctx.set_rule("keys {1,2,n-2,Annex,seeded,searched for leading/trailing zero bytes, high bit, both parities} through every encoder and decoder (SEC1 both forms, hex both cases, SPKI DER/PEM LF+CRLF, bytes, hex, PKCS#8 DER/PEM) with an independent DER reader on the library's documents; public points with the smallest x and with x within 2^64 of p (both roots), and points held as Jacobian key objects (Z in {2, p-1, seeded}), through every public-key encoder and decoder; 20 OpenSSL key pairs; decoder negatives: every length 0..=130 at Sm2PublicKey::new / from_hex_string / Sm2PrivateKey::new, off-curve and unreduced coordinates and foreign tags via new / hex / SPKI; ASN.1 ciphertext for messages {1,32,100} x ephemeral scalars pre-searched so that C1.x / C1.y have 1..3 leading zero bytes, trailing zero bytes or the top bit set x 4 parameter combinations: document = GM/T 0009 SEQUENCE of (C1.x, C1.y, C3, C2) byte for byte, decrypt_asn1 of it, of the reference's and of OpenSSL's documents returns M; malformed documents are refused without a panic.");
+    ctx.set_rule("keys {1,2,n-2,Annex,seeded,searched for leading/trailing zero bytes, high bit, both parities} through every encoder and decoder (SEC1 both forms, hex both cases, SPKI DER/PEM LF+CRLF, bytes, hex, PKCS#8 DER/PEM) with an independent DER reader on the library's documents; public points with the smallest x and with x within 2^64 of p (both roots), and points held as Jacobian key objects (Z in {2, p-1, seeded}), through every public-key encoder and decoder; 20 OpenSSL key pairs; decoder negatives: every length 0..=130 at Sm2PublicKey::new / from_hex_string / Sm2PrivateKey::new, off-curve and unreduced coordinates and foreign tags via new / hex / SPKI; ASN.1 ciphertext for message lengths {14..30, 120..160, 250..260, 65424..65436, 65534..65537} (every DER length form and the boundaries between them) and {1,32,100} x ephemeral scalars pre-searched so that C1.x / C1.y have 1..3 leading zero bytes, trailing zero bytes or the top bit set x 4 parameter combinations: document = GM/T 0009 SEQUENCE of (C1.x, C1.y, C3, C2) byte for byte, decrypt_asn1 of it, of the reference's and of OpenSSL's documents returns M; malformed documents are refused without a panic.");
     let mut cases: Vec<Case> = Vec::new();
     let mut g = SplitMix::new(ctx.seed, "c19");
     let mut keys: Vec<(String, BigUint)> = vec![("1".into(), BigUint::one()), ("2".into(), BigUint::from(2u32)), ("n-2".into(), &n - 2u32), ("annex".into(), hb(ANNEX_D))];
@@ -658,6 +663,19 @@ pub fn run(ctx: &Arc<Ctx>) {
     ctx.cov("c1_patterns_covered", json!(patterns));
     for (kn, k) in scalar_alphabet(&n, ctx.seed, "c19k", 1) {
         cases.push(Case::Asn1 { d: hexbig(&keys[4].1), k: hexbig(&k), msg_len: 19, compressed: false, c1c3c2: true, tag: format!("k={}", kn) });
+    }
+    // message lengths that move the DER length fields across their encoding boundaries: OCTET STRING of 127/128 and
+    // 255/256 bytes, SEQUENCE content of 127/128, 255/256 and 65535/65536 bytes (1-, 2-, 3- and 4-byte length forms)
+    {
+        let mut lens: Vec<usize> = (14..=30).chain(120..=160).chain(250..=260).collect();
+        lens.extend((65536 - 112..=65536 - 100).chain(65534..=65537));
+        if ctx.tier == Tier::Thorough {
+            lens.extend([1000usize, 4096, 70000, 200000]);
+        }
+        let k = hb(ANNEX_K);
+        for ml in lens {
+            cases.push(Case::Asn1 { d: ANNEX_D.into(), k: hexbig(&k), msg_len: ml, compressed: false, c1c3c2: true, tag: "der-length-form-boundary".into() });
+        }
     }
     for idx in 0..openssl_cts().len() {
         cases.push(Case::Asn1OpenSsl { idx });
